@@ -1016,6 +1016,9 @@ fn gen_case(r: &mut Prng, prop: &str, n: u64, out: &mut Out) -> (String, String,
         _ => (r.range(5, 40), false),
     };
     let (len, bulk) = if prop == "C19" && bulk { (r.range(270, 300), true) } else { (len, bulk) };
+    // "fill" histories: 255 live mounts, so that allocation fails, then a vacancy is made and found
+    let fill = prop != "C19" && shape == 2;
+    let len = if fill { r.range(300, 360) } else { len };
     let mut g = Gen { r, next_bk: 0, stale: vec![], maps_used: vec![], gmap };
     let mut bulk_k = 0usize;
     let bulk_target = if bulk { g.r.range(200, 280) as usize } else { 0 };
@@ -1024,7 +1027,10 @@ fn gen_case(r: &mut Prng, prop: &str, n: u64, out: &mut Out) -> (String, String,
             break;
         }
         let live_before: Vec<u8> = run.w.live.keys().copied().collect();
-        let st = if bulk && bulk_k < bulk_target && g.r.chance(9, 10) {
+        let st = if fill && bulk_k < 262 {
+            bulk_k += 1;
+            if bulk_k == 259 { format!("u:/p{}", g.r.range(1, 255)) } else { g.mount_step(&run.w, prop, Some(bulk_k)) }
+        } else if bulk && bulk_k < bulk_target && g.r.chance(9, 10) {
             bulk_k += 1;
             // sprinkle umounts and over-mounts into the mass mounting so that vacancies exist at wrap
             if bulk_k > 20 && g.r.chance(1, 12) {
